@@ -113,7 +113,7 @@ def campaign(c):
             if r.chance(1, 8):   # an extension block of (almost) 64 KiB: the hello needs all 24 bits of its handshake length
                 exts = r.choice([[(r.below(65536), big(r, 65531))], [(1, big(r, 30000)), (2, big(r, 35000))], [(7, big(r, 65000)), (8, b'ab')]])
             empties = r.choice([0, 0, 1, 2])          # extension arguments that are empty byte strings
-            ver = r.choice([0x0303, 0x0301, r.below(65536)])
+            ver = r.choice([0x0303, 0x0301, 0x0300, 0x0002, 0x0200, 0x0304, 0, 0xffff, r.below(65536)])   # every protocol generation: option interactions
             use = dict(version=r.chance(1, 2), sessionid=r.chance(1, 2), ciphers=r.chance(1, 2), compression=r.chance(1, 2))
             steps = [['std::len_u8', '-=' + s(sid)], ['tls::ciphers'] + ['-=u16:%d' % x for x in ids], ['std::len_u8', '-=' + s(comp)]]
             for e, d in exts: steps.append(['tls::extension', '-=u16:%d' % e, '-=' + s(d)])
